@@ -31,6 +31,16 @@ try:
     r0 = subprocess.run(["/venv/bin/python", f"{d}/demo.py"], env=env, cwd="/tmp", stdout=subprocess.PIPE, stderr=subprocess.STDOUT, text=True, timeout=600)
     res["demo_clean_exit"] = r0.returncode
     ra = sh(f"git -C {wt} apply {d}/patch.diff")
+    if ra.returncode != 0:
+        # the repository moved on under the seed (later `fix:` commits): three-way merge on the blobs the patch names
+        ra3 = sh(f"git -C {wt} apply -3 {d}/patch.diff")
+        conflict = sh(f"git -C {wt} diff --name-only --diff-filter=U").stdout.strip()
+        if ra3.returncode == 0 and not conflict:
+            res["patch_applied_3way"] = True
+            ra = ra3
+            sh(f"git -C {wt} reset -q")          # keep the change in the working tree only
+        else:
+            sh(f"git -C {wt} checkout -q -f HEAD -- .")
     res["patch_applies"] = ra.returncode == 0
     if ra.returncode != 0:
         print(ra.stdout)
